@@ -4,7 +4,7 @@ HOOKS = {
     "guard": "verif",
     "enable": "go build -tags verif (harness module /verif/harness with `replace github.com/goose-lang/goose => /repo`)",
     "baseline_off_cmd": "cd /repo && GOFLAGS=-mod=mod go test -json -vet=off -count=1 -timeout 25m ./...",
-    "source_commits": [],
+    "source_commits": ["4385eebfba1ac813fc0ffcf43c01c385837a539e"],
     "add_only": True,
 }
 
@@ -181,3 +181,87 @@ CLAIMED = {
              "in for arbitrary type-correct Go.",
         tech="Lean 4 proof (aggregation) + regenerated panic-site inventory + corpus correspondence on the real binary"),
 }
+
+CLAIMED.update({
+    "C01": dict(
+        text="Machine-checked proofs (Lean 4 kernel) over models of the translator's decision logic: (1) control-flow soundness - for every "
+             "statement list of any shape and nesting (early returns, break/continue through conditionals, code after conditionals, loops, blocks) "
+             "that the model of stmts/stmtInBlock/ifStmt/endsWithReturn accepts, the single expression it builds computes exactly Go's control "
+             "flow, for every interpretation of atoms, all states and all fuels; accepted lists never get stuck; (2) for widths 64/32/8 and all "
+             "operands every row of the regenerated operator tables maps a Go operator to the GooseLang operator with Go's wrap-around meaning "
+             "(+,-,*,/,%,&,|,^,<<,>>, comparisons) and to_uN is Go's conversion. Tied to the code by regenerated canonical text and tables (rfl), by "
+             "a structural correspondence (the model's output equals what the real goose emits on random control-flow skeletons, rejections and "
+             "messages included) and by an end-to-end differential: generated packages run natively and through the real goose plus the Lean "
+             "reference interpreter (calibrated on every run against the repository's own semantics suite).",
+        ref="DESIGN.md §6 C01",
+        note="Proved: the control-flow and arithmetic core. Modelled and sampled, not proved: scoping/let-binding, heap (structs, slices, maps, "
+             "pointers), closures, strings, encoders - covered by the differential only (partial). Trusted: GL/Sem.lean as the meaning of the emitted "
+             "text (reconstruction of Perennial's GooseLang, K3-calibrated), GL/Lex+Parse, the Go toolchain as the meaning of Go. Known findings "
+             "(known_findings.jsonl): loop-variable scope, named-integer conversions, narrow ++/--, untyped constant operands, evaluation order, "
+             "per-iteration loop variables, empty make is nil.",
+        tech="Lean 4 proofs (simulation by mutual induction; BitVec arithmetic) + regenerated facts + structural correspondence + end-to-end differential"),
+    "C02": dict(
+        text="Machine-checked proof (Lean 4 kernel) of reject-or-faithful for the control-flow translation: for EVERY statement list and usage the "
+             "model either reports a conversion error or produces an expression that agrees with Go on every interpretation, state and fuel; the "
+             "shapes of the catalogue (return in the middle, return in a loop, break outside a loop, early return with else and remainder, nested "
+             "early return without else) are refused; weakening the endsWithReturn guard provably yields a silent mistranslation. The inventory of "
+             "the translator's 120 guard calls (function, reporter, message) is regenerated on every run and must equal the committed one (rfl). "
+             "Tied to the code by that inventory, by the structural correspondence on random skeletons (which are rejected, and why), and by a "
+             "catalogue of ~95 out-of-subset constructs x 9 positions, 12 control-flow shapes, 25 declaration forms, 15 look-alike packages and a "
+             "splice stream, each function judged rejected-or-equal against native Go via the real goose and the Lean interpreter.",
+        ref="DESIGN.md §6 C02",
+        note="Proved: the control-flow guards. Every other guard is pinned by the regenerated inventory and exercised by the catalogue (partial: "
+             "a catalogue is finite). Known findings: store through let-bound values, pointer method on value, method values, := redeclaration of "
+             "a var, int as unsigned, untyped constant arithmetic, variadic calls, interface conversion not emitted, FFI packages recognised by name.",
+        tech="Lean 4 proof (reject-or-faithful) + regenerated guard inventory + catalogue differential against the real binary"),
+    "C03": dict(
+        text="Machine-checked proofs (Lean 4 kernel), parametric in the number of workers and the values and over ALL schedules, of the protocol "
+             "shapes concurrent Goose programs are built from: workers under a mutex joined by a wait group (Add(k) once or Add(1) per spawn): the "
+             "counter equals the unfinished workers, mutual exclusion, the join sees every update (schedule-independent result), no deadlock, no "
+             "stuck thread, every schedule finite; schedule-dependent accumulators: the outcome set is exactly the permutations; hand-off through a "
+             "condition variable with spurious wake-ups: the value read is the value written, progress; and the mutation witnesses (Add mismatch, "
+             "private copies of captured variables) provably break them. Tied to the code by the regenerated text of goStmt/spawnExpr/lockMethod/"
+             "condVarMethod/waitGroupMethod (rfl) and by running generated race-free programs natively (many runs, race detector, watchdog) and "
+             "through the real goose plus an exhaustive scheduler of the Lean interpreter: Go outcomes must be GooseLang outcomes, and "
+             "schedule-independent programs must have exactly one.",
+        ref="DESIGN.md §6 C03",
+        note="The theorems are about protocol models, not about the emitted text; the emitted text is covered by the exhaustive scheduler on "
+             "generated instances (partial: bounded programs; Go's schedules are sampled, so a Go-only outcome can be missed, never invented). "
+             "Interleaving at synchronisation points only is exhaustive for data-race-free programs (assumption; race detector on every package).",
+        tech="Lean 4 proofs (invariants over all schedules) + regenerated facts + exhaustive scheduling of emitted programs vs native runs"),
+    "C04": dict(
+        text="Machine-checked proofs (Lean 4 kernel) over the model of Ctx.Decls: whatever the dependency graph (cycles and self-references "
+             "included) every declaration is emitted exactly once; when the graph is acyclic apart from self-loops every declaration is emitted "
+             "after everything it mentions; names resolve to the last declaration defining them, and to their own declaration when names are "
+             "distinct. Tied to the code by the regenerated text of Decls/sortedFiles/depTracker (rfl), by a hook (build tag verif) through which "
+             "the names and dependencies goose recorded and the order it emitted are read from the real code and compared with the model's order, and "
+             "by an independent structural check of the emitted file (each expected name once, every definition mentions only definitions above it, "
+             "never itself as a global) over generated packages in several declaration orders and file splits.",
+        ref="DESIGN.md §6 C04",
+        note="Trusted: the hook repeats the first loop of Decls; the parser reads what Coq reads. The completeness of the dependency recording "
+             "itself (every reference kind calls addDep) is checked by the structural check only (partial).",
+        tech="Lean 4 proof (DFS emission: permutation + topological order) + hook-based correspondence + structural check over layouts"),
+    "C05": dict(
+        text="Machine-checked proofs (Lean 4 kernel): the comment sanitiser (three steps of AddComment) leaves no comment opener or closer, keeps "
+             "everything else in place, and EVERY comment text - any characters, delimiters, quotes, newlines - is skipped by a Coq-style lexer "
+             "(nested comments, strings inside comments) exactly up to the delimiter goose printed, also as an indented block; a string literal "
+             "without quotes is read back as itself whatever it contains. Tied to the code by the regenerated text of the printer functions (rfl), "
+             "by comparing every printed doc comment with the model's prediction, and by translating hostile packages under all 8 flag "
+             "combinations: every output lexes and parses, defines exactly the expected names, evaluates to Go's values, and every definition "
+             "has the same parse tree under every flag combination; nesting is covered by deep random expressions evaluated on both sides.",
+        ref="DESIGN.md §6 C05",
+        note="Trusted: GL/Lex.lean as Coq's lexical conventions (calibrated on the gold files). The parenthesisation of the printer is pinned "
+             "(regenerated text) and tested end to end, not proved (partial). Known finding: Coq keywords as identifiers.",
+        tech="Lean 4 proofs (sanitiser and lexer) + regenerated printer facts + hostile-text correspondence against the real binary"),
+    "C13": dict(
+        text="Machine-checked proofs (Lean 4 kernel) over the system-call model of DirFs.AtomicCreate with arbitrary disturbance (crash after "
+             "any number of system calls, any single failing call, any short-write pattern): dir/name is as before or exactly the data "
+             "(volatile and durable), exact after a normal return whatever was left behind, undisturbed calls return normally, the data is durable "
+             "before the name points to it, other names are untouched, a retry after any interrupted call succeeds; the side conditions hold on "
+             "every reachable state. Tied to the code by the regenerated facts of machine/filesys (rfl) and by running the real code under strace "
+             "fault and kill injection at every system call, with leftovers, plus concurrent creators (interference).",
+        ref="DESIGN.md §6 C13",
+        note="Concurrent calls are covered by the stress correspondence only (partial: runtime interleavings). Trusted: the OS model "
+             "(page cache vs durable contents, rename atomicity).",
+        tech="Lean 4 proofs over an OS model + regenerated facts + strace fault/kill injection + concurrent stress"),
+})
